@@ -292,3 +292,42 @@ pub fn p_frame_write_plain() {
     kani::cover!(res.is_ok() && size == 13);
 }
 
+
+// ---- async composite on the crate's always-ready `&[u8]` source ---------------------------------
+
+fn poll_once<F: core::future::Future>(f: F) -> core::task::Poll<F::Output> {
+    let mut f = core::pin::pin!(f);
+    let mut cx = core::task::Context::from_waker(core::task::Waker::noop());
+    f.as_mut().poll(&mut cx)
+}
+
+// (A fully symbolic composite harness for `Frame::read_async` does not terminate in CBMC - symbolic-size
+// `vec![0; payload_len]` - the async copies of the logic are verified by the Verus unit `frame_async`.)
+
+/// The parse limit on the async path, with the declared length CONCRETE (4095, 4096, 4097) so the
+/// allocation has a concrete size: a frame that declares exactly 4096 bytes is NOT too big (the
+/// source ends early here, so the verdict is `UnexpectedFin`), 4097 is.
+#[kani::proof]
+#[kani::unwind(12)]
+pub fn p_frame_read_async_at_limit() {
+    let kind: u8 = kani::any();
+    kani::assume(kind == 0x00 || kind == 0x01 || kind == 0x04 || kind == 0x21 || kind == 0x0d);
+    let which: u8 = kani::any();
+    kani::assume(which < 3);
+    let declared: u16 = 4095 + which as u16;
+    let tail: [u8; 3] = kani::any();
+    // 2-byte varint: 0b01 prefix
+    let buf: [u8; 6] = [kind, 0x40 | (declared >> 8) as u8, (declared & 0xff) as u8, tail[0], tail[1], tail[2]];
+    let mut src: &[u8] = &buf[..];
+    let got = match poll_once(Frame::read_async(&mut src)) {
+        core::task::Poll::Ready(r) => r,
+        core::task::Poll::Pending => panic!("an always-ready source cannot make the future pend"),
+    };
+    match got {
+        Err(IoReadError::Parse(ParseError::PayloadTooBig)) => { assert!(declared as usize > spec::MAX_PARSE_PAYLOAD); }
+        Err(IoReadError::IO(bytes::IoReadError::UnexpectedFin)) => { assert!(declared as usize <= spec::MAX_PARSE_PAYLOAD); }
+        _ => panic!("unexpected verdict at the parse limit"),
+    }
+    kani::cover!(declared == 4096);
+    kani::cover!(declared == 4097);
+}
